@@ -157,22 +157,6 @@ func typed(n Node) reflect.Value {
 	return v
 }
 
-// whether a typed decode reconstructs every binary leaf (the decoder walks structs, typed slices,
-// and direct map values - not []any or nested generic containers)
-func typedDecodable(n Node) bool {
-	switch n.T {
-	case "list":
-		if typeOf(n).Elem().Kind() == reflect.Interface {
-			return !hasBin(n)
-		}
-	}
-	for _, k := range n.Kids {
-		if !typedDecodable(k) {
-			return false
-		}
-	}
-	return true
-}
 
 func hasBin(n Node) bool {
 	if n.T == "bin" {
@@ -465,6 +449,7 @@ func encRecord(w *vtrace.Writer, res *vres.Result, rng *rand.Rand, ptype parser.
 	rec["header"], rec["encoded"], rec["atts"], rec["attsBinary"] = header, encoded, atts, attsBinary
 	// decode with a fresh parser and matching types
 	decHeaderOK, decoded, checked := false, leaf("null", "", 0), false
+	decodedG, checkedG := leaf("null", "", 0), false
 	func() {
 		defer func() {
 			if x := recover(); x != nil {
@@ -496,12 +481,28 @@ func encRecord(w *vtrace.Writer, res *vres.Result, rng *rand.Rand, ptype parser.
 		}
 		idOK := (id == nil && fin.h.ID == nil) || (id != nil && fin.h.ID != nil && *id == *fin.h.ID)
 		decHeaderOK = fin.h.Namespace == wantNsp && idOK && fin.name == name && fin.h.Attachments == len(atts)
-		ok := true
-		for _, a := range args {
-			if !typedDecodable(a) {
-				ok = false
+		// generic: every argument decoded into `any`
+		{
+			types := make([]reflect.Type, len(args))
+			for i := range args {
+				types[i] = reflect.TypeOf((*any)(nil))
+			}
+			vs, e3 := fin.dec(types...)
+			if e3 == nil {
+				kids := []Node{}
+				if ptype == parser.PacketTypeEvent {
+					kids = append(kids, leaf("str", fin.name, 0))
+				}
+				for _, x := range vs {
+					kids = append(kids, canon(x))
+				}
+				decodedG, checkedG = list(kids...), true
+			} else {
+				rec["errG"] = "decode: " + e3.Error()
+				checkedG = true
 			}
 		}
+		ok := true
 		if ok {
 			types := make([]reflect.Type, len(args))
 			for i, a := range args {
@@ -527,6 +528,7 @@ func encRecord(w *vtrace.Writer, res *vres.Result, rng *rand.Rand, ptype parser.
 		}
 	}()
 	rec["decHeaderOK"], rec["decoded"], rec["decodeChecked"] = decHeaderOK, decoded, checked
+	rec["decodedG"], rec["decodeCheckedG"] = decodedG, checkedG
 	w.Write([]vtrace.Rec{rec})
 	res.Case(fmt.Sprint(ptype, nsp, id, name, args, guise), hasBin(orig) || len(args) > 0)
 	if w.Lines()%1500 == 3 {
@@ -628,6 +630,27 @@ var sigTypes = [][]reflect.Type{
 		S struct{ B sio.Binary } `json:"s"`
 	}{})},
 	{},
+	{reflect.TypeOf(&[]any{})},
+	{reflect.TypeOf(&[]map[string]any{})},
+	{reflect.TypeOf(&map[string]map[string]any{})},
+	{reflect.TypeOf(&map[string][]any{})},
+	{reflect.TypeOf(&map[string]sio.Binary{})},
+	{reflect.TypeOf(&[]sio.Binary{})},
+	{reflect.TypeOf(new(int)), reflect.TypeOf((*any)(nil))},
+	{reflect.TypeOf(new(int)), reflect.TypeOf(&map[string]any{})},
+}
+
+// placeholder grid: where the placeholder object stands x what its num is x how many attachments the header announces
+var phPositions = []string{`["ev",%s]`, `["ev",[%s]]`, `["ev",{"m":%s}]`, `["ev",{"m":{"x":%s}}]`, `["ev",{"l":[%s]}]`, `["ev",{"s":{"B":%s}}]`,
+	`["ev",{"a":%s}]`, `["ev",[{"k":%s}]]`, `["ev",{"m":[{"q":%s}]}]`, `[%s]`, `["ev",1,%s]`, `["ev",1,{"m":%s}]`, `["ev",{"m":%s,"a":%s}]`}
+var phNums = []string{`-1e30`, `-2`, `-1`, `-0.5`, `0`, `0.5`, `1`, `1.5`, `2`, `3`, `4`, `1e30`, `1e300`, `"x"`, `true`, `null`, `[0]`, `{}`}
+
+func phObjects() []string {
+	out := []string{`{"_placeholder":true}`, `{"_placeholder":false,"num":0}`, `{"_placeholder":1,"num":0}`, `{"num":0}`, `{"_placeholder":true,"num":0,"extra":1}`}
+	for _, n := range phNums {
+		out = append(out, `{"_placeholder":true,"num":`+n+`}`, `{"num":`+n+`,"_placeholder":true}`)
+	}
+	return out
 }
 
 // a frame sequence through a real parser, then every finished packet decoded against every handler signature family
@@ -801,6 +824,22 @@ func TestC10(t *testing.T) {
 			decRecord(w, res, [][]byte{f0, []byte("BIN1"), []byte("BIN2"), []byte(`2["ev"]`)}, "class+3")
 		}
 	}
+	// the placeholder grid, with exactly as many binary frames as announced
+	for _, pos := range phPositions {
+		for _, obj := range phObjects() {
+			body := strings.ReplaceAll(pos, "%s", obj)
+			for _, typ := range []string{"5", "6"} {
+				for cnt := 1; cnt <= 3; cnt++ {
+					fs := [][]byte{[]byte(fmt.Sprintf("%s%d-%s", typ, cnt, body))}
+					for k := 0; k < cnt; k++ {
+						fs = append(fs, []byte(fmt.Sprintf("BIN%d", k)))
+					}
+					decRecord(w, res, fs, "phgrid")
+				}
+			}
+		}
+	}
+	res.Count("phgrid_records", w.Lines())
 	// grammar-aware mutations of valid packets
 	valid := []string{`2["ev",1,"a"]`, `2/a,12["ev",{"k":[1,2]}]`, `51-["ev",{"_placeholder":true,"num":0}]`, `52-/n,3["e",{"_placeholder":true,"num":1},{"_placeholder":true,"num":0}]`, `0{"sid":"x"}`, `3/a,7[1]`, `61-1[{"_placeholder":true,"num":0}]`}
 	for i := 0; i < vres.Pick(3000, 60000); i++ {
